@@ -85,7 +85,7 @@ static void jwk_process_values(json_t *jwk, jwk_item_t *item)
 	j_kid = json_object_get(jwk, "kid");
 	if (j_kid && json_is_string(j_kid)) {
 		const char *kid = json_string_value(j_kid);
-		int len = strlen(kid);
+		size_t len = strlen(kid);
 
 		if (len) {
 			item->kid = jwt_malloc(len + 1);
